@@ -79,11 +79,11 @@ def run(ctx: vlib.Ctx):
     ctx.trusted += ["tools/kernels/k45b_namedtuple_pack.py (translator of the display pack_named_tuple returns; validated each run against generated encoder source)"]
     ctx.theorems("props/C02_typevar.vo", ["C02_optional_code_is_model", "C02_typevar_code_is_model", "C02_typevar_pack_ref"], kernels=["K45c"])
     ctx.trusted += ["tools/kernels/k45c_optional_typevar.py (head of pack_special_typing_primitive + expr_or_maybe_none: exact-shape check, tests abstracted to booleans)"]
-    ctx.theorems("props/C02_union.vo", ["C02_union_passthrough_as_is", "C02_union_passthrough_order_free", "C02_union_converting_in_declared_order",
-                                        "C02_packer_cache_per_format", "C02_packer_cache_not_unpacker_cache"], kernels=["K21", "K13C"])
+    ctx.theorems("props/C02_union.vo", ["C02_union_passthrough_as_is", "C02_union_passthrough_order_free", "C02_union_converting_in_declared_order"], kernels=["K21"])
+    ctx.theorems("props/C02_cache.vo", ["C02_packer_cache_per_format", "C02_packer_cache_not_unpacker_cache"], kernels=["K13C"])
     ctx.trusted += ["tools/kernels/k21_pack_union_emit.py (C11's translator of the two loops of pack_union; members abstracted to class name / expression / behaviour) and "
                     "tools/kernels/k13c_codec_plan.py (reads the cache attribute names off builder.py, fails closed when they do not contain self.format_name)"]
-    ctx.coqchk(["VerifProps.C02_union", "VerifProps.C02_pack", "VerifProps.C02_collection_kernel", "VerifProps.C02_ntdict", "VerifProps.C02_typed_kernel", "VerifProps.C02_ntdict_kernel", "VerifProps.C02_typevar"])
+    ctx.coqchk(["VerifProps.C02_union", "VerifProps.C02_cache", "VerifProps.C02_pack", "VerifProps.C02_collection_kernel", "VerifProps.C02_ntdict", "VerifProps.C02_typed_kernel", "VerifProps.C02_ntdict_kernel", "VerifProps.C02_typevar"])
     ctx.trusted += ["tools/kernels/k15_collection_exprs.py (translator of _make_sequence_expression/_make_mapping_expression; "
                     "recognised tests and returned templates are listed explicitly, anything else fails closed)"]
     ctx.trusted += ["TyModel.v (cp/pk: hand-written model of pack.py registry order, copy-vs-comprehension and could_be_none decisions) "
